@@ -1661,8 +1661,14 @@ def hooked_copy(prog):
         raise RuntimeError("T0_NEXT definition not recognised in " + prog.path)
     hook = "t0v_hook_%s" % prog.key
     new = ("void %s(void *t0ctx, uint32_t *dp, uint32_t *rp, const unsigned char *ip);\n"
-           "#define T0_NEXT(t0ipp)   (%s(t0ctx, dp, rp, *(t0ipp)), pgm_read_byte((*t0ipp)++))") % (hook, hook)
-    return t[:old.start()] + new + t[old.end():]
+           "void %s_exit(void *t0ctx);\n"
+           "#define T0_NEXT(t0ipp)   (%s(t0ctx, dp, rp, *(t0ipp)), pgm_read_byte((*t0ipp)++))") % (hook, hook, hook)
+    t2 = t[:old.start()] + new + t[old.end():]
+    # second hook: right after the interpreter saved its registers on exit (the caller may go on
+    # modifying the context before the driver regains control)
+    tail = "\t((t0_context *)t0ctx)->ip = ip;\n}"
+    k = t2.index(tail, t2.index("t0_exit:"))
+    return t2[:k] + "\t((t0_context *)t0ctx)->ip = ip;\n\t%s_exit(t0ctx);\n}" % hook + t2[k + len(tail):]
 
 
 def validate(prog, timeout=1500):
@@ -1678,7 +1684,7 @@ def validate(prog, timeout=1500):
             if os.path.isfile(f):
                 inputs.update(f.encode())
                 inputs.update(open(f, "rb").read())
-    hk = hashlib.sha1((src + drv + hh(prog.repo) + open(os.path.join(HERE, "t0n_vm.h")).read() + inputs.hexdigest() + "val-v2").encode()).hexdigest()[:16]
+    hk = hashlib.sha1((src + drv + hh(prog.repo) + open(os.path.join(HERE, "t0n_vm.h")).read() + inputs.hexdigest() + "val-v3").encode()).hexdigest()[:16]
     cache = os.path.join(BUILD, "validate-%s-%s.json" % (prog.key, hk))
     if os.path.exists(cache) and not os.environ.get("T0TOOL_REVALIDATE"):
         return json.load(open(cache))
@@ -1690,8 +1696,9 @@ def validate(prog, timeout=1500):
     try:
         sys.path.insert(0, ROOT)
         import verif
-        defs = repo_defs(prog.repo) + ["-DBEARSSL_ESP8266_VERIF"]
-        ar = verif.native_archive("host", defs)
+        # portable (aligned) memory access paths: the library's deliberate unaligned loads would stop UBSan
+        defs = repo_defs(prog.repo) + ["-DBEARSSL_ESP8266_VERIF", "-DBR_LE_UNALIGNED=0", "-DBR_BE_UNALIGNED=0"]
+        ar = verif.native_archive("host-aligned", defs)
         cc = ["gcc", "-g", "-O1", "-w", "-fsanitize=address,undefined", "-fno-sanitize-recover=undefined",
               "-I" + os.path.join(prog.repo, "inc"), "-I" + os.path.join(prog.repo, "src"), "-I" + os.path.join(prog.repo, "samples"),
               "-I" + HERE] + defs
@@ -1715,7 +1722,13 @@ def validate(prog, timeout=1500):
             res["error"] = "objcopy failed: " + e[-500:]
             return res
         exe = os.path.join(wd, "t0val")
-        rc, o, e = sh(cc + ["-DT0V_KEY_%s=1" % prog.key, "-DT0V_HOOK=t0v_hook_%s" % prog.key, "-DT0V_INTERP=%d" % prog.interp,
+        ign = []
+        if prog.key == "hss" and prog.native_by_name("call-policy-handler"):
+            f_ = [x for x in layout(prog) if x.path == "sign_hash_id"]
+            if f_:
+                ign = ["-DT0V_IGN_OP=%d" % prog.native_by_name("call-policy-handler").op, "-DT0V_IGN_OFF=%d" % f_[0].off, "-DT0V_IGN_LEN=%d" % f_[0].size]
+                res["ignored"] = "call-policy-handler: bytes of sign_hash_id (copy of choices.algo_id, which the policy handler leaves unset for RSA key exchange: indeterminate value)"
+        rc, o, e = sh(cc + ign + ["-DT0V_KEY_%s=1" % prog.key, "-DT0V_HOOK=t0v_hook_%s" % prog.key, "-DT0V_INTERP=%d" % prog.interp,
                             os.path.join(HERE, "t0val_driver.c"), os.path.join(wd, "hooked.o"), os.path.join(wd, "e2.o"), ar, "-o", exe], timeout=600)
         if rc != 0:
             res["error"] = "link failed: " + (o + e)[-2000:]
